@@ -522,6 +522,7 @@ func runC07(c *Ctx) {
 	commitUndoRules(c, r1, r2, r3, r5, r4)
 	r7 := c.Rule("R7", "a first root's handle is registered only after its blob was written: the root id is published in StoreInfo.RootNodeID, so a registered handle without a blob is reachable data that does not load, and (the partial step not being undone, R2) it blocks every later creator of that root for good, whereas an orphan blob is overwritten by the retry", 1)
 	rootBlobBeforeHandleRule(c, r7)
+	failedFlipKeepsKeysRule(c, r5)
 	r8 := c.Rule("R8", "what an undo function looks up in the registry is recorded there before the data it leads to is written (derived from the undo functions; shared with C11.R5)", 3)
 	undoDiscoveryRule(c, r8)
 	r6 := c.Rule("R6", "undo functions that cannot tell this transaction's state from a competitor's run only in a state that implies the step succeeded for this transaction (shared with C37.R4)", 6)
